@@ -42,15 +42,172 @@ Proof. induction w as [|k w IH]; intros i; simpl; [reflexivity|]. rewrite IH. re
 Lemma c08_mask_set_length U w : length (c08_mask_set U w) = length w.
 Proof. apply c08_mask_from_length. Qed.
 
-(* blanking one task is the special case of a one-element set *)
+(* blanking one task ([c08_mask]) is the special case of a one-element set *)
 Lemma c08_mask_set_single u w : c08_mask_set (Nat.eqb u) w = c08_mask u w.
 Proof.
-  unfold c08_mask_set, c08_mask.
-  assert (G : forall w i u, c08_mask_from (Nat.eqb (i + u)) i w = set_nth w u no_task).
-  { clear. induction w as [|k w IH]; intros i u; simpl; [destruct u; reflexivity|].
-    destruct u as [|u].
-    - rewrite Nat.add_0_r, Nat.eqb_refl. f_equal.
-      clear IH. revert i. generalize (S i) at 1 3 as j.
-      induction w as [|k2 w IH]; intros j i Hj; simpl; [reflexivity|].
-      destruct (Nat.eqb_spec i j) as [E|E]; [lia|]. f_equal. apply IH. lia. }
-  Abort.
+  apply (nth_ext _ _ no_task no_task).
+  - rewrite c08_mask_set_length, c08_mask_length. reflexivity.
+  - intros v Hv. rewrite c08_mask_set_length in Hv.
+    change (gett (c08_mask_set (Nat.eqb u) w) v = gett (c08_mask u w) v).
+    rewrite c08_mask_set_gett_all. destruct (Nat.eqb_spec u v) as [<-|N].
+    + unfold gett, c08_mask. rewrite nth_set_nth_same by exact Hv. reflexivity.
+    + rewrite c08_mask_gett by (intro E; apply N; symmetry; exact E). reflexivity.
+Qed.
+
+(* ---------- an unrelated set ---------- *)
+Record c08_unrelated (w : list itask) (U : nat -> bool) : Prop := {
+  un_member : forall u, U u = true -> k_ext (gett w u) = false;
+  (* a union of whole top-level subtrees *)
+  un_parent : forall u p, U u = true -> k_parent (gett w u) = Some p -> U p = true;
+  un_children : forall u c, U u = true -> In c (k_children (gett w u)) -> U c = true;
+  (* no dependency link between U and a member outside U *)
+  un_preds : forall u p, U u = true -> In p (k_preds (gett w u)) -> k_ext (gett w p) = false -> U p = true;
+  un_succs : forall u s, U u = true -> In s (k_succs (gett w u)) -> k_ext (gett w s) = false -> U s = true }.
+
+(* the executable form, for a set given by the list of its elements *)
+Definition c08_unrelated_b (w : list itask) (us : list nat) : bool :=
+  forallb (fun u =>
+    let k := gett w u in
+    negb (k_ext k)
+    && match k_parent k with Some p => memb p us | None => true end
+    && forallb (fun c => memb c us) (k_children k)
+    && forallb (fun p => k_ext (gett w p) || memb p us) (k_preds k)
+    && forallb (fun s => k_ext (gett w s) || memb s us) (k_succs k)) us.
+
+Lemma c08_unrelated_b_sound w us : c08_unrelated_b w us = true -> c08_unrelated w (fun t => memb t us).
+Proof.
+  intros H. unfold c08_unrelated_b in H. rewrite forallb_forall in H.
+  assert (G : forall u, memb u us = true ->
+    k_ext (gett w u) = false
+    /\ match k_parent (gett w u) with Some p => memb p us | None => true end = true
+    /\ forallb (fun c => memb c us) (k_children (gett w u)) = true
+    /\ forallb (fun p => k_ext (gett w p) || memb p us) (k_preds (gett w u)) = true
+    /\ forallb (fun s => k_ext (gett w s) || memb s us) (k_succs (gett w u)) = true).
+  { intros u Hu. apply memb_true in Hu. specialize (H u Hu). cbv zeta in H.
+    rewrite !andb_true_iff in H. destruct H as [[[[A B] C] D] E]. apply negb_true_iff in A. auto. }
+  constructor.
+  - intros u Hu. apply (G u Hu).
+  - intros u p Hu Hp. destruct (G u Hu) as [_ [B _]]. rewrite Hp in B. exact B.
+  - intros u c Hu Hc. destruct (G u Hu) as [_ [_ [C _]]]. rewrite forallb_forall in C. exact (C c Hc).
+  - intros u p Hu Hp Hpe. destruct (G u Hu) as [_ [_ [_ [D _]]]]. rewrite forallb_forall in D.
+    specialize (D p Hp). rewrite Hpe in D. exact D.
+  - intros u s Hu Hs Hse. destruct (G u Hu) as [_ [_ [_ [_ E]]]]. rewrite forallb_forall in E.
+    specialize (E s Hs). rewrite Hse in E. exact E.
+Qed.
+
+(* an isolated task is an unrelated one-element set *)
+Lemma c08_isolated_unrelated w u : c08_isolated w u -> c08_unrelated w (Nat.eqb u).
+Proof.
+  intros [Hext [Hp [Hch [Hpr Hs]]]]. constructor.
+  - intros v Hv. apply Nat.eqb_eq in Hv. subst v. exact Hext.
+  - intros v p Hv Hpp. apply Nat.eqb_eq in Hv. subst v. congruence.
+  - intros v c Hv Hc. apply Nat.eqb_eq in Hv. subst v. rewrite Hch in Hc. destruct Hc.
+  - intros v p Hv Hc. apply Nat.eqb_eq in Hv. subst v. rewrite Hpr in Hc. destruct Hc.
+  - intros v p Hv Hc. apply Nat.eqb_eq in Hv. subst v. rewrite Hs in Hc. destruct Hc.
+Qed.
+
+(* ---------- nobody outside U refers to a task of U ---------- *)
+Section Outside.
+Variable w : list itask.
+Variable U : nat -> bool.
+Hypothesis H : WFin w.
+Hypothesis HU : c08_unrelated w U.
+
+Lemma c08_out_parent v p : U v = false -> k_parent (gett w v) = Some p -> U p = false.
+Proof.
+  intros Hv Hp. destruct (U p) eqn:Up; [|reflexivity]. exfalso.
+  destruct (k_ext (gett w v)) eqn:Hext.
+  - rewrite (c08_ext_no_parent w v H Hext) in Hp. discriminate.
+  - destruct (mf_parent _ _ (c08_member_facts_of w v H Hext) p Hp) as [_ Hin].
+    rewrite (un_children _ _ HU p v Up Hin) in Hv. discriminate.
+Qed.
+
+Lemma c08_out_child v c : U v = false -> In c (k_children (gett w v)) -> U c = false.
+Proof.
+  intros Hv Hc. destruct (U c) eqn:Uc; [|reflexivity]. exfalso.
+  destruct (k_ext (gett w v)) eqn:Hext.
+  - destruct (c08_ext_no_links w v H Hext) as [E _]. rewrite E in Hc. destruct Hc.
+  - destruct (mf_children _ _ (c08_member_facts_of w v H Hext) c Hc) as [_ Hq].
+    rewrite (un_parent _ _ HU c v Uc Hq) in Hv. discriminate.
+Qed.
+
+Lemma c08_out_pred v p : U v = false -> In p (k_preds (gett w v)) -> U p = false.
+Proof.
+  intros Hv Hp. destruct (U p) eqn:Up; [|reflexivity]. exfalso.
+  destruct (k_ext (gett w v)) eqn:Hext.
+  - destruct (c08_ext_no_links w v H Hext) as [_ E]. rewrite E in Hp. destruct Hp.
+  - pose proof (c08_pred_mirror w v p H Hext Hp (un_member _ _ HU p Up)) as Hin.
+    rewrite (un_succs _ _ HU p v Up Hin Hext) in Hv. discriminate.
+Qed.
+
+Lemma c08_out_ancestors : forall n v, U v = false ->
+  ancestors (c08_mask_set U w) n v = ancestors w n v /\ forall a, In a (ancestors w n v) -> U a = false.
+Proof.
+  induction n as [|n IH]; intros v Hv; simpl; [split; [reflexivity | intros a []]|].
+  rewrite (c08_mask_set_gett U w v Hv).
+  destruct (k_parent (gett w v)) as [p|] eqn:Hp; [|split; [reflexivity | intros a []]].
+  pose proof (c08_out_parent v p Hv Hp) as Up. destruct (IH p Up) as [A B].
+  split; [rewrite A; reflexivity|]. intros a [<-|Ha]; [exact Up | exact (B a Ha)].
+Qed.
+
+Lemma c08_out_prereq v p : U v = false -> In p (prereqs w v) -> U p = false.
+Proof.
+  intros Hv Hp. unfold prereqs in Hp. apply in_app_or in Hp. destruct Hp as [Hp|Hp].
+  - exact (c08_out_pred v p Hv Hp).
+  - apply in_flat_map in Hp. destruct Hp as [a [Ha Hp]].
+    destruct (c08_out_ancestors (length w) v Hv) as [_ B]. exact (c08_out_pred a p (B a Ha) Hp).
+Qed.
+
+Lemma c08_mask_set_prereqs v : U v = false -> prereqs (c08_mask_set U w) v = prereqs w v.
+Proof.
+  intros Hv. unfold prereqs. rewrite (c08_mask_set_gett U w v Hv), c08_mask_set_length.
+  destruct (c08_out_ancestors (length w) v Hv) as [A B]. rewrite A. f_equal.
+  apply c08_flat_map_ext_in. intros a Ha. rewrite c08_mask_set_gett; [reflexivity|]. exact (B a Ha).
+Qed.
+
+(* ---------- a task of U refers only to U and to tasks outside the WBS ---------- *)
+Definition c08_inU (t : nat) : Prop := U t = true \/ k_ext (gett w t) = true.
+
+Lemma c08_in_ancestors : forall n u, U u = true -> forall a, In a (ancestors w n u) -> U a = true.
+Proof.
+  induction n as [|n IH]; intros u Hu a Ha; simpl in Ha; [destruct Ha|].
+  destruct (k_parent (gett w u)) as [p|] eqn:Hp; [|destruct Ha].
+  pose proof (un_parent _ _ HU u p Hu Hp) as Up. destruct Ha as [<-|Ha]; [exact Up | exact (IH p Up a Ha)].
+Qed.
+
+Lemma c08_in_pred u p : U u = true -> In p (k_preds (gett w u)) -> c08_inU p.
+Proof.
+  intros Hu Hp. destruct (k_ext (gett w p)) eqn:Hext; [right; exact Hext|].
+  left. exact (un_preds _ _ HU u p Hu Hp Hext).
+Qed.
+
+Lemma c08_in_prereq u p : U u = true -> In p (prereqs w u) -> c08_inU p.
+Proof.
+  intros Hu Hp. unfold prereqs in Hp. apply in_app_or in Hp. destruct Hp as [Hp|Hp].
+  - exact (c08_in_pred u p Hu Hp).
+  - apply in_flat_map in Hp. destruct Hp as [a [Ha Hp]].
+    exact (c08_in_pred a p (c08_in_ancestors (length w) u Hu a Ha) Hp).
+Qed.
+
+Lemma c08_in_child u c : U u = true -> In c (k_children (gett w u)) -> c08_inU c.
+Proof. intros Hu Hc. left. exact (un_children _ _ HU u c Hu Hc). Qed.
+End Outside.
+
+(* ---------- the roots of the masked table ---------- *)
+Lemma c08_mask_set_roots w U : (forall u, U u = true -> k_ext (gett w u) = false) ->
+  roots (c08_mask_set U w) = filter (fun t => negb (U t)) (roots w).
+Proof.
+  intros Hm. unfold roots, members. rewrite c08_mask_set_length.
+  induction (seq 0 (length w)) as [|x l IH]; [reflexivity|]. cbn [filter].
+  destruct (U x) eqn:Ux.
+  - rewrite (c08_mask_set_gett_in U w x Ux), (Hm x Ux). cbn [no_task k_ext negb filter]. rewrite IH.
+    destruct (k_parent (gett w x)); cbn [filter]; [reflexivity|]. rewrite Ux. reflexivity.
+  - rewrite (c08_mask_set_gett U w x Ux). destruct (negb (k_ext (gett w x))); cbn [filter]; [|exact IH].
+    rewrite (c08_mask_set_gett U w x Ux). destruct (k_parent (gett w x)); cbn [filter]; [exact IH|].
+    rewrite Ux. cbn [negb]. rewrite IH. reflexivity.
+Qed.
+
+(* the theorems about an unrelated set specialise to the ones about one isolated task *)
+Lemma c08_isolated_is_unrelated w u : c08_isolated w u ->
+  c08_unrelated w (Nat.eqb u) /\ c08_mask_set (Nat.eqb u) w = c08_mask u w.
+Proof. intros Hi. split; [exact (c08_isolated_unrelated w u Hi) | apply c08_mask_set_single]. Qed.
